@@ -265,6 +265,9 @@ func familyStream(weights map[string]int, hostile bool, quickN, thoroughN, lengt
 				if weights["string"] >= 10 && g.chance(0.08) {
 					ops = append(ops, g.lcsMacro(1)...)
 				}
+				if weights["string"] >= 10 && g.chance(0.08) {
+					ops = append(ops, g.setMacro(1)...)
+				}
 				if weights["string"] >= 10 && g.chance(0.07) {
 					ops = append(ops, g.floatMacro(1, false)...)
 				}
@@ -277,11 +280,17 @@ func familyStream(weights map[string]int, hostile bool, quickN, thoroughN, lengt
 				if weights["bits"] >= 10 && g.chance(0.1) {
 					ops = append(ops, g.bitposMacro(1)...)
 				}
+				if weights["bits"] >= 10 && g.chance(0.1) {
+					ops = append(ops, g.bitrangeMacro(1)...)
+				}
 				if weights["key"] >= 5 && g.chance(0.12) {
 					ops = append(ops, g.sortMacro(1)...)
 				}
 				if weights["key"] >= 5 && g.chance(0.1) {
 					ops = append(ops, g.copyMacro(1)...)
+				}
+				if weights["key"] >= 5 && g.chance(0.12) {
+					ops = append(ops, g.refusedMacro(1)...)
 				}
 				if weights["hash"] >= 10 && g.chance(0.06) {
 					ops = append(ops, g.hcounterBoundary(1)...)
